@@ -303,8 +303,37 @@ TETRA_V = [(0, 0, 0), (1, 0, 0), (0, 1, 0), (0, 0, 1)]
 TETRA_F = [(0, 2, 1), (0, 1, 3), (1, 2, 3), (0, 3, 2)]
 
 
+def val_in(v):
+    """{"np": data}: the value is passed as a float64 ndarray instead of nested lists"""
+    if isinstance(v, dict) and "np" in v:
+        return np.array(v["np"], dtype=float)
+    return deepcopy(v)
+
+
+def make_mesh(a, kw):
+    """TriangularMesh through the plain constructor or one of the from_* constructors"""
+    TM = magpy.magnet.TriangularMesh
+    via = a.get("via")
+    verts, faces = np.array(val_in(a["vertices"]), dtype=float), np.array(a["faces"], dtype=int)
+    if via == "ConvexHull":
+        return TM.from_ConvexHull(points=verts, polarization=a["polarization"], **kw)
+    if via == "mesh":
+        return TM.from_mesh(mesh=verts[faces], polarization=a["polarization"], **kw)
+    if via == "triangles":
+        tris = [magpy.misc.Triangle(vertices=verts[f], polarization=(0, 0, 1)) for f in faces]
+        return TM.from_triangles(triangles=tris, polarization=a["polarization"], **kw)
+    if via == "pyvista":
+        try:
+            import pyvista
+            poly = pyvista.PolyData(verts, np.hstack([np.full((len(faces), 1), 3), faces]).ravel())
+            return TM.from_pyvista(polydata=poly, polarization=a["polarization"], **kw)
+        except ImportError:
+            pass
+    return TM(vertices=verts, faces=faces, polarization=a["polarization"], **kw)
+
+
 def make_object(cls, args, style_kwargs=None):
-    a = dict(args)
+    a = {k: (v if k in ("faces", "via", "ff", "k", "handedness", "orientation") else val_in(v)) for k, v in args.items()}
     kw = {}
     kw["position"] = a.pop("position", (0, 0, 0))
     kw["orientation"] = mk_rot(a.pop("orientation", None))
@@ -314,7 +343,7 @@ def make_object(cls, args, style_kwargs=None):
         if cls == "Sensor":
             return magpy.Sensor(pixel=a["pixel"], handedness=a.get("handedness", "right"), **kw)
         if cls == "Cuboid":
-            return magpy.magnet.Cuboid(dimension=a["dimension"], polarization=a["polarization"], **kw)
+            return magpy.magnet.Cuboid(dimension=a.get("dimension"), polarization=a.get("polarization"), **kw)
         if cls == "Cylinder":
             return magpy.magnet.Cylinder(dimension=a["dimension"], polarization=a["polarization"], **kw)
         if cls == "CylinderSegment":
@@ -326,10 +355,9 @@ def make_object(cls, args, style_kwargs=None):
         if cls == "Triangle":
             return magpy.misc.Triangle(vertices=a["vertices"], polarization=a["polarization"], **kw)
         if cls == "TriangularMesh":
-            return magpy.magnet.TriangularMesh(vertices=a["vertices"], faces=a["faces"],
-                                               polarization=a["polarization"], **kw)
+            return make_mesh(a, kw)
         if cls == "Circle":
-            return magpy.current.Circle(diameter=a["diameter"], current=a["current"], **kw)
+            return magpy.current.Circle(diameter=a.get("diameter"), current=a.get("current"), **kw)
         if cls == "Polyline":
             return magpy.current.Polyline(vertices=a["vertices"], current=a["current"], **kw)
         if cls == "Dipole":
@@ -380,10 +408,12 @@ def traces_of(obj):
     return [] if eff is None else eff["model3d"]["data"]
 
 
-def attr_value(name, val, src=None):
+def attr_value(name, val, src=None, get=None):
     """python value of a JSON attribute value.  {"alias": attr, "slice": k}: the very object that the
     public attribute `attr` of `src` returns (a view of its buffer), optionally its first k path steps"""
     if isinstance(val, dict) and "alias" in val:
+        if val.get("from") is not None:       # the attribute of ANOTHER object (e.g. a child, the copy)
+            src = None if get is None else get(val["from"])
         if src is None:
             raise Skip()
         v = getattr(src, val["alias"])
@@ -397,7 +427,7 @@ def attr_value(name, val, src=None):
     if name == "field_func":
         return None if val is None else ff_plain if val == "func" else \
             functools.partial(ff_scaled, k=np.array(val, dtype=float))
-    return deepcopy(val)
+    return val_in(val)
 
 
 # ------------------------------------------------------------------ mutations of ONE object
@@ -425,7 +455,7 @@ def write_into(buf, val):
     return False
 
 
-def mutate(obj, m):
+def mutate(obj, m, get=None):
     """apply the mutation m (JSON) to the python object; raises Skip when not applicable"""
     k = m["k"]
     with warnings.catch_warnings():
@@ -433,13 +463,31 @@ def mutate(obj, m):
         if k == "set":
             if not isinstance(getattr(type(obj), m["attr"], None), property):
                 raise Skip()
-            setattr(obj, m["attr"], attr_value(m["attr"], m["val"], obj))
+            setattr(obj, m["attr"], attr_value(m["attr"], m["val"], obj, get))
         elif k == "move":
             obj.move(m["disp"], start=m.get("start", "auto"))
         elif k == "rotate":
             obj.rotate_from_angax(m["angle"], m["axis"], anchor=m.get("anchor"), start=m.get("start", "auto"))
         elif k == "reset":
             obj.reset_path()
+        elif k == "rotfrom":
+            if m["how"] == "euler":
+                obj.rotate_from_euler(m["angle"], m["seq"], anchor=m.get("anchor"), start=m.get("start", "auto"),
+                                      degrees=m.get("degrees", True))
+            else:
+                obj.rotate_from_rotvec(m["angle"], anchor=m.get("anchor"), start=m.get("start", "auto"),
+                                       degrees=m.get("degrees", True))
+        elif k == "reorient":
+            if not isinstance(obj, magpy.magnet.TriangularMesh):
+                raise Skip()
+            obj.reorient_faces()
+        elif k == "read":
+            if m["what"] == "repr":
+                repr(obj)
+            elif m["what"] == "describe":
+                obj.describe(return_string=True)
+            else:
+                field_of(obj)
         elif k == "write":
             if m["slot"] not in obj.__dict__ or m["slot"] in NOT_SLOT:
                 raise Skip()
@@ -511,15 +559,15 @@ def style_mutation_on(style, m):
         raise ValueError(k)
 
 
-def apply_overrides(obj, attrs):
+def apply_overrides(obj, attrs, get=None):
     """what copy(**attrs) does to the copy, on a twin: all values are taken (from the twin's own
     attributes where they alias) BEFORE the first setattr, then assigned in order"""
-    vals = [(name, attr_value(name, val, obj)) for name, val in attrs]
+    vals = [(name, attr_value(name, val, obj, get)) for name, val in attrs]
     for name, v in vals:
         setattr(obj, name, v)
 
 
-VALUE_MUT = ("set", "move", "rotate", "reset", "write")
+VALUE_MUT = ("set", "move", "rotate", "reset", "write", "rotfrom", "reorient")
 STYLE_MUT = ("style", "nested", "styleset", "touch", "addtrace", "trace")
 
 
@@ -539,10 +587,19 @@ def mut_name(m):
         return "style.model3d.data[i]." + m["what"]
     if k == "addtrace":
         return "style.model3d.add_trace"
+    if k == "rotfrom":
+        return "rotate_from_" + m["how"]
+    if k == "read":
+        return "read:" + m["what"]
     return k
 
 
 # ------------------------------------------------------------------ the world of real objects
+BAD_KW = {"position": {"position": "bad"}, "orientation": {"orientation": "bad"}, "nonsense": {"nonsense": 1},
+          "style_nonsense": {"style_nonsense": 1}, "style_bad_value": {"style_opacity": "very"},
+          "dimension": {"dimension": "bad"}}
+
+
 class World:
     """objects by creation index.  model=True additionally produces, for every operation, the Coq
     `cop` (setter effects calibrated on scratch twins) and supports observe()."""
@@ -677,6 +734,16 @@ class World:
             return f"(CTree (SetTyped {KINDC[op['k']]} {op['c']} {cl(op['objs'])}))"
         if k == "copy":
             return self.op_copy(op)
+        if k == "defaults":
+            if self.model:
+                raise Skip()
+            if op["how"] == "update":
+                magpy.defaults.display.style.magnet.magnetization.show = False
+                magpy.defaults.display.style.base.opacity = 0.5
+                magpy.defaults.display.style.sensor.size = 3
+            else:
+                magpy.defaults.reset()
+            return None
         if k == "mut":
             return self.op_mut(op)
         raise ValueError(k)
@@ -700,10 +767,18 @@ class World:
         return (f"(CNew {KINDC[kind]} {cl(self.slot_tokens(obj))} {mode} {st} "
                 f"{clab(label_code(lab, type(obj).__name__))})")
 
+    def resolved(self, name, val):
+        """for the recipes: an alias of ANOTHER object's attribute is recorded by its value at that time"""
+        if isinstance(val, dict) and val.get("from") is not None:
+            return {"np": np.asarray(attr_value(name, val, None, self.get)).tolist()}
+        return val
+
     def copy_kwargs(self, kw, src=None):
         out = {}
         for name, val in kw.get("attrs", []):
-            out[name] = attr_value(name, val, src)
+            out[name] = attr_value(name, val, src, self.get)
+        if kw.get("parent") is not None:
+            out["parent"] = self.get(kw["parent"], ("coll",))
         out.update(style_ctor_kwargs(kw))
         return out
 
@@ -712,10 +787,27 @@ class World:
         x = self.get(xi)
         n = len(self.objs)
         kws = []
+        if op.get("bad"):
+            # a copy() call with an unusable keyword: the result (if any) is dropped.  The original may get
+            # its lazily un-initialised style created (copy reads self.style.label first); nothing else
+            touched = x.__dict__.get("_style") is not None or bool(x.__dict__.get("_style_kwargs"))
+            senc, _ = style_obs(x)
+            try:
+                with warnings.catch_warnings():
+                    warnings.simplefilter("ignore")
+                    x.copy(**BAD_KW[op["bad"]])
+            except Exception:      # pylint: disable=broad-except
+                pass
+            self.stat("copy:rejected-" + op["bad"])
+            return f"(CStyle {xi} {self.style_token(type(x), senc)})" if touched else f"(CSet {xi} [])"
+        if self.model and kw.get("parent") is not None:
+            raise Skip()              # parent= is a tree operation on top of the copy: search only
         if self.model:
             if kw.get("attrs"):
+                res_attrs = [[name, self.resolved(name, val)] for name, val in kw["attrs"]]
+
                 def fn(t):
-                    apply_overrides(t, kw["attrs"])
+                    apply_overrides(t, res_attrs)
                 rebound, written = self.calibrate(xi, fn)
                 if written:
                     raise RuntimeError("a keyword override writes in place")
@@ -765,7 +857,7 @@ class World:
             if i in pairs:
                 rec = list(self.recipes[i])
                 if i == xi and kw:
-                    rec += [("kws", kw["attrs"])] if kw.get("attrs") else []
+                    rec += [("kws", [[a, self.resolved(a, v)] for a, v in kw["attrs"]])] if kw.get("attrs") else []
                 self.reg(pairs[i], self.kinds[i], rec)
             else:
                 self.reg(0, "junk")
@@ -775,12 +867,20 @@ class World:
         obj = self.get(i)
         k = m["k"]
         if not self.model:
-            mutate(obj, m)
+            mutate(obj, m, self.get)
             return None
         cls = type(obj)
+        if k == "read":
+            if m["what"] != "repr":
+                raise Skip()          # describe of a collection touches the children's styles, getB: search only
+            senc, _ = style_obs(obj)
+            mutate(obj, m)            # repr reads self.style.label: creates the style, values unchanged
+            return f"(CStyle {i} {self.style_token(cls, senc)})"
         if k in VALUE_MUT:
             if self.kinds[i] == "coll" and obj._children and not (k == "write"):
                 raise Skip()          # moves the children as well: not a one-object operation
+            if k == "set":
+                m = dict(m, val=self.resolved(m["attr"], m["val"]))
             rebound, written = self.calibrate(i, lambda t: mutate(t, m))
             if rebound and written or len(written) > 1:
                 # e.g. rotate about an anchor without padding: rebinds _orientation AND writes into
@@ -967,6 +1067,8 @@ def expand_pads(orig, kept):
     for i, op in enumerate(orig):
         if i in kept:
             out.append(op)
+        elif op["op"] == "copy" and op.get("bad"):
+            pass                                   # creates nothing
         elif op["op"] in ("copy", "padcopy"):
             out.append({"op": "padcopy"})
         elif creates(op):
@@ -1041,11 +1143,18 @@ def gen_attr(rng, cls, name):
     if name == "orientation":
         return None if rng.random() < 0.15 else rotvec(rng)
     if name in ("polarization", "moment"):
+        r = rng.random()
+        if r < 0.2:                      # exactly along an axis
+            v = [0.0, 0.0, 0.0]
+            v[rng.randrange(3)] = rng.choice([1.0, -1.0, 0.5])
+            return v
+        if r < 0.25:
+            return [0.0, 0.0, 0.0]
         return vec3(rng)
     if name == "magnetization":
         return [v * 100000.0 for v in vec3(rng)]     # low values warn with repr(self), which creates the style
     if name == "current":
-        return q(rng, 1, 9)
+        return rng.choice([0.0, -1.0, -2.5]) if rng.random() < 0.25 else q(rng, 1, 9)
     if name == "diameter":
         return q(rng, 0.5, 3)
     if name == "handedness":
@@ -1062,8 +1171,10 @@ def gen_attr(rng, cls, name):
         if cls == "Cylinder":
             return [q(rng, 0.5, 2), q(rng, 0.5, 2)]
         r1 = q(rng, 0.25, 1)
-        p1 = rng.choice([0, 30, 45, -90])
-        return [r1, r1 + q(rng, 0.25, 1), q(rng, 0.5, 2), p1, p1 + rng.choice([45, 90, 180, 270])]
+        if rng.random() < 0.15:
+            r1 = 0.0                                          # solid
+        p1 = rng.choice([0, 30, 45, -90, -200, -270, -355])
+        return [r1, r1 + q(rng, 0.25, 1), q(rng, 0.5, 2), p1, p1 + rng.choice([45, 90, 180, 270, 355, 360])]
     raise ValueError(name)
 
 
@@ -1148,8 +1259,33 @@ def gen_new(rng, cls=None, search=False):
         args[name] = gen_attr(rng, cls, name)
     if cls == "TriangularMesh":
         s = q(rng, 0.5, 2)
-        args["vertices"] = [[s * c for c in v] for v in TETRA_V]
+        off = vec3(rng) if rng.random() < 0.5 else [0, 0, 0]      # off the local origin
+        args["vertices"] = [[s * c + o for c, o in zip(v, off)] for v in TETRA_V]
         args["faces"] = [list(f) for f in TETRA_F]
+        args["via"] = rng.choice([None, None, "ConvexHull", "mesh", "triangles", "pyvista"])
+    if cls in ("Tetrahedron", "Triangle", "Polyline") and rng.random() < 0.4:
+        off = [4 * c for c in vec3(rng)]
+        args["vertices"] = [[c + o for c, o in zip(v, off)] for v in args["vertices"]]
+    sc = rng.choice([1e-6, 1e-3, 1e3]) if rng.random() < 0.25 else 1      # absolute length scale
+    if sc != 1:
+        def scaled(v):
+            return [scaled(e) for e in v] if isinstance(v, list) else v * sc
+        for name in ("position", "pixel", "vertices", "diameter"):
+            if args.get(name) is not None:
+                args[name] = scaled(args[name])
+        if "dimension" in args:
+            k = 3 if cls == "CylinderSegment" else len(args["dimension"])
+            args["dimension"] = scaled(args["dimension"][:k]) + args["dimension"][k:]
+    if search and cls in ("Cuboid", "Circle") and rng.random() < 0.12:
+        # optional attributes left unset (search only: the set of mutable slots is not stable)
+        args[rng.choice(CTOR_ATTRS[cls])] = None
+    for name in ("position", "pixel", "vertices", "dimension", "polarization", "moment"):
+        if isinstance(args.get(name), list) and name != "vertices" or (name == "vertices" and cls != "TriangularMesh"
+                                                                      and isinstance(args.get(name), list)):
+            if rng.random() < 0.2:
+                args[name] = {"np": args[name]}                  # float64 ndarray instead of lists
+    if isinstance(args.get("position"), list) and not isinstance(args["position"][0], list) and rng.random() < 0.15:
+        args["position"] = [args["position"]]                    # single-element path, shape (1,3)
     if cls == "CustomSource":
         args["ff"] = rng.choice([None, "func", "partial"])
         if args["ff"] == "partial":
@@ -1171,6 +1307,23 @@ def gen_mut(rng, obj, clsname, corr):
         return {"k": "trace", "idx": idx, "what": rng.choice(whats)}
     if rng.random() < 0.05:
         return {"k": "addtrace", "trace": gen_trace(rng)}
+    r = rng.random()
+    if r < 0.05:                                  # reads interleaved with writes (repr creates the style)
+        return {"k": "read", "what": rng.choice(["repr", "repr", "describe", "getB"] if not corr else ["repr"])}
+    if r < 0.09:                                  # other public rotation entry points
+        m = {"k": "rotfrom", "how": rng.choice(["euler", "euler", "rotvec"]), "degrees": rng.random() < 0.7,
+             "anchor": rng.choice([None, 0, [1, 0, 0]])}
+        if m["how"] == "euler":
+            m["seq"] = rng.choice(["z", "X", "xy", "ZYX", "Y"])
+            a1 = [rng.choice([30, 90, 180]) if m["degrees"] else rng.choice([0.5, 1.0]) for _ in m["seq"]]
+            m["angle"] = a1[0] if len(a1) == 1 else a1
+        else:
+            m["angle"] = [0, 0, rng.choice([90, 180])] if m["degrees"] else [0.5, 0, 0]
+        if npath >= 2 and rng.random() < 0.5:
+            m["start"] = rng.choice([0, npath - 1, -1])
+        return m
+    if r < 0.11 and clsname == "TriangularMesh":
+        return {"k": "reorient"}
     x = rng.random()
     if x < 0.2:
         names = ["position", "orientation"] + SETTABLE[clsname]
@@ -1187,7 +1340,9 @@ def gen_mut(rng, obj, clsname, corr):
         if npath >= 2 and rng.random() < 0.6:                 # vector inside the path: no padding, in place
             st = rng.randrange(npath)
             return {"k": "move", "disp": path3(rng, rng.randint(1, npath - st)), "start": st}
-        return {"k": "move", "disp": path3(rng), "start": rng.choice(["auto", 0, 1])}
+        # start before (negative) / beyond the path / appended
+        return {"k": "move", "disp": rng.choice([path3(rng), vec3(rng)]),
+                "start": rng.choice(["auto", 0, 1, -1, -npath, -npath - 2, npath + 1])}
     if x < 0.48:
         m = {"k": "rotate", "angle": rng.choice([90, 45, 30]), "axis": rng.choice(["x", "y", "z"]),
              "anchor": rng.choice([None, [1, 0, 0], [0, 0.5, 0], 0])}
@@ -1196,8 +1351,12 @@ def gen_mut(rng, obj, clsname, corr):
             m["start"] = st
             if rng.random() < 0.5:
                 m["angle"] = [rng.choice([30, 60, 90]) for _ in range(rng.randint(1, npath - st))]
-        elif rng.random() < 0.25:
-            m["angle"] = [30, 60]                              # appended: pads the path
+        elif rng.random() < 0.3:
+            m["angle"] = [30, 60, 90][:rng.choice([2, 3])]     # appended: pads the path
+            m["start"] = rng.choice(["auto", "auto", -1, npath + 1])
+        if isinstance(m["angle"], list) and rng.random() < 0.4:
+            # per-step anchors (same length as / shorter than the rotation input)
+            m["anchor"] = [vec3(rng) for _ in range(rng.randint(1, len(m["angle"])))]
         return m
     if x < 0.52:
         return {"k": "reset"}
@@ -1241,6 +1400,12 @@ def gen_copy_kw(rng, w, xi, corr):
                     npath = len(x._position)
                     if name == "position" and npath >= 2 and rng.random() < 0.5:
                         val["slice"] = rng.randint(1, npath)
+                    if name == "position" and w.kinds[xi] == "coll" and x._children and rng.random() < 0.4:
+                        val = {"alias": "position", "from": w.idx(rng.choice(x._children))}   # a child's path
+                elif isinstance(val, list) and rng.random() < 0.3 and name != "orientation":
+                    val = {"np": val}                                 # float64 ndarray instead of lists
+                elif name == "position" and not isinstance(val[0], list) and rng.random() < 0.15:
+                    val = [val]                                        # single-element path, shape (1,3)
                 kw["attrs"].append([name, val])
         elif r < 0.65:
             kw["kw"]["label"] = rng.choice(["a", "b", "c", "b_04", clsname])
@@ -1254,6 +1419,10 @@ def gen_copy_kw(rng, w, xi, corr):
                                      {"color": "yellow"}])
             if rng.random() < 0.3:
                 kw["traces"] = [gen_trace(rng)]
+    if not corr and rng.random() < 0.08:
+        colls = [i for i in w.live() if w.kinds[i] == "coll"]
+        if colls:
+            kw["parent"] = rng.choice(colls)        # the copy lands in that collection
     return kw
 
 
@@ -1334,6 +1503,13 @@ def gen_op(rng, w, corr, max_rows=12):
     if x < 0.52 and len(w.objs) <= max_rows:
         xi = rng.choice(live)
         return {"op": "copy", "x": xi, "kw": gen_copy_kw(rng, w, xi, corr)}
+    if x < 0.55:
+        return {"op": "copy", "x": rng.choice(live), "bad": rng.choice(sorted(BAD_KW))}
+    if x < 0.57 and not corr:
+        return {"op": "defaults", "how": rng.choice(["update", "update", "reset"])}
+    if x < 0.60 and len(live) >= 2:
+        i, j = rng.sample(live, 2)                  # an object's own array passed into another one's setter
+        return {"op": "mut", "i": i, "m": {"k": "set", "attr": "position", "val": {"alias": "position", "from": j}}}
     i = rng.choice(live)
     obj = w.objs[i]
     m = gen_mut(rng, obj, type(obj).__name__, corr)
@@ -1581,22 +1757,46 @@ def kw_names(kw):
         names.append("style")
     if kw.get("traces"):
         names.append("style_model3d_data")
+    if kw.get("parent") is not None:
+        names.append("parent")
     return names
 
 
 def run_scenario(ops, stats=None):
+    try:
+        return _run_scenario(ops, stats)
+    finally:
+        if any(op["op"] == "defaults" for op in ops):
+            magpy.defaults.reset()
+
+
+def replay_world(ops, skip_copies=False):
+    w = World(model=False)
+    for op in ops:
+        if skip_copies and op["op"] == "copy":
+            op = {"op": "padcopy"} if not op.get("bad") else {"op": "nop"}
+        if op["op"] == "nop":
+            continue
+        try:
+            w.apply(op)
+        except Skip:
+            if skip_copies:
+                return None          # an operation refers to an object of a skipped copy
+            w.stat("skipped")
+        except Exception:            # pylint: disable=broad-except
+            if skip_copies:
+                return None
+            raise
+    return w
+
+
+def _run_scenario(ops, stats=None):
     """ops = prefix + [copy] + post operations (mutations of ONE side).  The clauses of the property
     are evaluated at the LAST copy operation.  Raises Fail on the first violated clause."""
     last = max((i for i, op in enumerate(ops) if op["op"] == "copy"), default=None)
     if last is None:
         return None
-    w = World(model=False)
-    for op in ops[:last]:
-        for st in ([{"op": "pad"}] * len(w.objs) if op["op"] == "padcopy" else [op]):
-            try:
-                w.apply(st)
-            except Skip:
-                pass
+    w = replay_world(ops[:last])
     cop = ops[last]
     xi, kw = cop["x"], cop.get("kw") or {}
     try:
@@ -1617,21 +1817,50 @@ def run_scenario(ops, stats=None):
     sub_x = w.subtree(xi)
     X0 = {i: (vals_enc(w.objs[i]), style_obs(w.objs[i])) for i in sub_x}
     eff_x0 = eff_style_dict(x)
+    # (g) the state of the originals does not depend on earlier copies: when no operation of the prefix
+    # touches an object of an earlier copy, a fresh twin world built WITHOUT those copies shows the same
+    prior = [i for i, op in enumerate(ops[:last]) if op["op"] == "copy"]
+    if prior:
+        w3 = replay_world(ops[:last], skip_copies=True)
+        clone_free = w3 is not None and len(w3.objs) == n and not any(
+            (ops[i].get("kw") or {}).get("parent") is not None for i in prior) and all(
+            w3.kinds[t] != "junk" for op in ops[:last] if op["op"] not in ("copy", "new", "pad", "padcopy", "defaults")
+            for t in target_ids(op) + reads_of(op) if isinstance(t, int) and t < n)
+        if clone_free:
+            ids3 = [i for i in old if w3.kinds[i] != "junk"]
+            d = diff_snapshot(flat_snapshot(w3, ids3), {i: S0[i] for i in ids3})
+            if d is not None:
+                raise Fail("original_untouched", type(w.objs[d[0]]).__name__, "earlier-copy",
+                           f"`{d[1]}` of object {d[0]} differs from a fresh twin built by the same operations "
+                           "without the earlier copy() calls")
+            if stats is not None:
+                stats["history-twin"] = stats.get("history-twin", 0) + 1
+    if cop.get("bad"):
+        # a copy() call that is rejected (or whose result is dropped) leaves the world as it was
+        try:
+            w.apply(cop)
+        except Skip:
+            return None
+        d = diff_snapshot(S0, flat_snapshot(w, old))
+        if d is not None:
+            raise Fail("original_untouched", cls, f"rejected-copy({cop['bad']})",
+                       f"{cls}.copy({', '.join(BAD_KW[cop['bad']])}=<unusable>) changed `{d[1]}` of object {d[0]}")
+        v = check_invariant(w)
+        if v is not None:
+            raise Fail("original_untouched", cls, f"rejected-copy({cop['bad']})",
+                       f"after a rejected {cls}.copy(): {v[2]}")
+        if stats is not None:
+            stats["rejected-copies"] = stats.get("rejected-copies", 0) + 1
+        return None
     # the expected values after keyword overrides: the same setattr on a rebuilt twin world
     w2 = None
     if kw.get("attrs"):
-        w2 = World(model=False)
-        for op in ops[:last]:
-            for st in ([{"op": "pad"}] * len(w2.objs) if op["op"] == "padcopy" else [op]):
-                try:
-                    w2.apply(st)
-                except Skip:
-                    pass
+        w2 = replay_world(ops[:last])
         x2 = w2.objs[xi]
         try:
             with warnings.catch_warnings():
                 warnings.simplefilter("ignore")
-                apply_overrides(x2, kw["attrs"])
+                apply_overrides(x2, kw["attrs"], w2.get)
         except Exception:      # pylint: disable=broad-except
             if stats is not None:
                 stats["override-rejected-by-setter"] = stats.get("override-rejected-by-setter", 0) + 1
@@ -1659,6 +1888,16 @@ def run_scenario(ops, stats=None):
             for k, (oc, cc) in enumerate(zip(o._children, c._children)):
                 iso(oc, cc, path + f"[{k}]")
     iso(x, y, "")
+    # (h) copy(parent=coll): the copy lands in coll and only there; afterwards it is detached again so
+    # that the remaining clauses read as for a plain copy
+    if kw.get("parent") is not None:
+        P = w.objs[kw["parent"]]
+        listed = [c for _, c in all_collections(w, extra=subtree_objs(y)) if any(ch is y for ch in c._children)]
+        if y._parent is not P or len(listed) != 1 or listed[0] is not P or sum(ch is y for ch in P._children) != 1:
+            raise Fail("override", cls, "parent", f"{cls}.copy(parent=coll): the copy is not a child of exactly coll")
+        if x._parent is not xparent:
+            raise Fail("original_untouched", cls, trig, "copy(parent=coll) changed the parent of the original")
+        P.remove(y)
     # (c) parentless; original untouched
     if y.parent is not None or y._parent is not None:
         raise Fail("parentless", cls, "child" if xparent is not None else "root",
@@ -1772,8 +2011,12 @@ def run_scenario(ops, stats=None):
                     warnings.simplefilter("ignore")
                     w.apply(st)
             except Skip:
+                if stats is not None:
+                    stats["post-op-not-applicable"] = stats.get("post-op-not-applicable", 0) + 1
                 continue
             except Exception:   # pylint: disable=broad-except
+                if stats is not None:
+                    stats["post-op-rejected"] = stats.get("post-op-rejected", 0) + 1
                 continue          # a rejected call is not a mutation
             if s_here is not None:
                 side = s_here
@@ -1817,12 +2060,29 @@ def run_scenario(ops, stats=None):
             continue
         d = diff_snapshot(before, flat_snapshot(w, new))
         if d is not None:
-            raise Fail("shared_state", cls, f"shared:{oname}" + ("" if not names else ":" + trig),
+            raise Fail("shared_state", cls, f"shared:{oname}" + ("" if not names else ":" + trig)
+                       + ("" if lastmut is None else ":after-" + op_name(lastmut)),
                        f"after {trig}: `{oname}` of object {oi} and `{nname}` of its copy {nj} share {kind}; "
                        f"a change of the original shows as `{d[1]}` of object {d[0]} of the copy")
         if stats is not None:
             stats["unconfirmed:" + oname] = stats.get("unconfirmed:" + oname, 0) + 1
     return None
+
+
+def all_collections(w, extra=()):
+    out = [(i, o) for i, (o, kd) in enumerate(zip(w.objs, w.kinds)) if kd == "coll"]
+    return out + [(None, o) for o in extra if isinstance(o, magpy.Collection)]
+
+
+def reads_of(op):
+    """ids an operation reads values from (aliases of another object's attribute)"""
+    out = []
+    if op["op"] == "mut" and isinstance(op["m"].get("val"), dict) and op["m"]["val"].get("from") is not None:
+        out.append(op["m"]["val"]["from"])
+    if op["op"] == "copy":
+        out += [v["from"] for _, v in (op.get("kw") or {}).get("attrs", [])
+                if isinstance(v, dict) and v.get("from") is not None]
+    return out
 
 
 def target_ids(op):
@@ -1861,6 +2121,165 @@ def _probe(sm, label):
 FIXED_PROBES = [_probe(1, ""), _probe(2, ""), _probe(1, "x9"), _probe(2, "col1"), _probe(1, "a_"), _probe(2, "a_01")]
 
 
+# ------------------------------------------------------------------ fixed battery (runs on every check)
+DEF_ARGS = {
+    "Sensor": {"pixel": [[0, 0, 0], [0, 0, 0.5]], "handedness": "left"},
+    "Cuboid": {"dimension": [1, 2, 3], "polarization": [0.1, 0.2, 0.3]},
+    "Cylinder": {"dimension": [1, 2], "polarization": [0, 0, 1]},
+    "CylinderSegment": {"dimension": [0.5, 1, 2, -30, 120], "polarization": [0, 1, 0]},
+    "Sphere": {"diameter": 1.5, "polarization": [1, 0, 0]},
+    "Tetrahedron": {"vertices": [[4, 4, 4], [5, 4, 4], [4, 5, 4], [4, 4, 5]], "polarization": [0, 0, 1]},
+    "Triangle": {"vertices": [[3, 0, 0], [4, 0, 0], [3, 1, 2]], "polarization": [0, 0, 1]},
+    "TriangularMesh": {"vertices": [[2, 2, 2], [3, 2, 2], [2, 3, 2], [2, 2, 3]], "faces": [list(f) for f in TETRA_F],
+                       "polarization": [0, 0, 1]},
+    "Circle": {"diameter": 1.5, "current": 2.0},
+    "Polyline": {"vertices": [[0, 0, 0], [1, 0, 0], [1, 1, 0]], "current": 1.0},
+    "Dipole": {"moment": [1, 2, 3]},
+    "CustomSource": {"ff": "partial", "k": [1, 2, 3]},
+    "Collection": {},
+}
+PATH6 = [[i, 0.5 * i, 0] for i in range(6)]
+PATH3 = [[1, 0, 0], [2, 0.5, 0], [3, 0.5, 1]]
+
+
+def N(cls, sm=0, style=None, **args):
+    return {"op": "new", "cls": cls, "args": dict(DEF_ARGS[cls], **args), "sm": sm, "style": style}
+
+
+def C(x, attrs=None, kw=None, dct=None, parent=None, bad=None, traces=None):
+    op = {"op": "copy", "x": x, "kw": {"attrs": attrs or [], "kw": kw or {}, "dict": dct, "traces": traces}}
+    if parent is not None:
+        op["kw"]["parent"] = parent
+    if bad:
+        op["bad"] = bad
+    return op
+
+
+def M(i, **m):
+    return {"op": "mut", "i": i, "m": m}
+
+
+def ADD(c, *objs):
+    return {"op": "add", "c": c, "objs": list(objs), "ov": False}
+
+
+def fixed_battery():
+    """directed scenarios: [(name, ops)]; each is evaluated at its last copy, the operations after it are
+    mutations of one side"""
+    B = []
+    ali = {"alias": "position"}
+    pend = {"kw": {"label": "cube", "magnetization_show": False, "path_show": False, "path_numbering": True},
+            "dict": None, "traces": None}
+    tr = [{"backend": "generic", "constructor": "Scatter3d", "kwargs": {"x": [0, 1, 2], "y": [0, 0, 0], "z": [1, 1, 1],
+                                                                        "mode": "lines"}, "show": True, "scale": 1}]
+    # (a) absolute length scales
+    for sc in (1e-6, 1e-3, 1e3):
+        B.append((f"scale:{sc:g}", [N("Cuboid", dimension=[sc, 2 * sc, 3 * sc], position=[[sc, 0, 0], [2 * sc, sc, 0]]),
+                                    C(0), M(0, k="move", disp=[sc, sc, sc])]))
+        B.append((f"scale-circle:{sc:g}", [N("Circle", diameter=sc, position=[0, 0, sc]), C(0, attrs=[["diameter", 2 * sc]]),
+                                           M(1, k="move", disp=[0, 0, sc])]))
+    B.append(("scale-sensor", [N("Sensor", pixel=[[0, 0, 0], [1e-3, 0, 0]], position=[1e-3, 0, 0]), C(0), M(1, k="write", slot="_pixel", val=1)]))
+    # (b) anisotropy, asymmetry, meshes from every constructor
+    for k, dim in enumerate(([5, 1, 1], [1, 5, 1], [1, 1, 5])):
+        B.append((f"cuboid-long-axis-{k}", [N("Cuboid", dimension=dim, orientation=[0, 90, 0]), C(0, attrs=[["orientation", [90, 0, 0]]]),
+                                            M(0, k="rotate", angle=90, axis="z", anchor=[1, 0, 0])]))
+    for dim in ([0.5, 1, 2, -355, 5], [0.5, 1, 2, -200, 160], [0, 1, 2, 0, 360], [0.9, 1, 0.1, -270, -95]):
+        B.append((f"segment:{dim[3]}..{dim[4]}", [N("CylinderSegment", dimension=dim), C(0), M(1, k="set", attr="dimension", val=[0.5, 2, 1, 0, 90])]))
+    for via in (None, "ConvexHull", "mesh", "triangles", "pyvista"):
+        B.append((f"mesh:{via}", [N("TriangularMesh", via=via, position=PATH3), C(0), M(1, k="write", slot="_vertices", val=1)]))
+        B.append((f"mesh-reorient:{via}", [N("TriangularMesh", via=via), C(0), M(0, k="reorient"), M(0, k="write", slot="_faces", val=1)]))
+    B.append(("tetrahedron-off-origin", [N("Tetrahedron"), C(0, attrs=[["vertices", {"alias": "vertices"}]]), M(0, k="write", slot="_vertices", val=1)]))
+    B.append(("triangle-off-origin", [N("Triangle"), C(0), M(1, k="write", slot="_vertices", val=0.5)]))
+    # (c) special values, optional attributes left unset
+    B.append(("current-zero", [N("Polyline", current=0.0), C(0), M(1, k="set", attr="current", val=3.0)]))
+    B.append(("current-negative", [N("Circle", current=-2.0), C(0, attrs=[["current", 0.0]])]))
+    for pol in ([0, 0, 0], [-1, 0, 0], [0, 1, 0], [0, 0, -1]):
+        B.append((f"polarization:{pol}", [N("Cuboid", polarization=pol, orientation=[0, 180, 0]), C(0), M(0, k="set", attr="polarization", val=[0, 0, 1])]))
+    B.append(("circle-without-diameter", [N("Circle", diameter=None), C(0), M(1, k="set", attr="diameter", val=2.0)]))
+    B.append(("magnet-without-polarization", [N("Cuboid", polarization=None), C(0), M(0, k="set", attr="polarization", val=[0, 0, 1])]))
+    B.append(("magnet-without-dimension", [N("Cuboid", dimension=None), C(0, attrs=[["dimension", [1, 1, 1]]])]))
+    B.append(("custom-without-field_func", [N("CustomSource", ff=None), C(0), M(0, k="move", disp=[1, 0, 0])]))
+    B.append(("custom-partial", [N("CustomSource"), C(0), M(0, k="write", slot="_field_func", val=1)]))
+    B.append(("sensor-left-handed", [N("Sensor", orientation=[0, 0, 90]), C(0, attrs=[["handedness", "right"]]), M(0, k="set", attr="handedness", val="right")]))
+    # (e) paths
+    B.append(("path-override-longer", [N("Cuboid", position=PATH3, orientation=[0, 0, 90]), C(0, attrs=[["position", PATH6]]), M(1, k="move", disp=[0, 0, 1])]))
+    B.append(("path-override-shorter", [N("Cuboid", position=PATH6), M(0, k="rotate", angle=[10, 20, 30], axis="z", start=1),
+                                        C(0, attrs=[["position", PATH3]]), M(0, k="rotate", angle=30, axis="x", anchor=0)]))
+    B.append(("path-override-orientation", [N("Dipole", position=PATH6), C(0, attrs=[["orientation", [[0, 0, 10], [0, 0, 20]]]]),
+                                            M(1, k="move", disp=[[0, 0, 1], [0, 0, 2]], start=0)]))
+    B.append(("move-start-negative", [N("Circle", position=PATH6), C(0), M(1, k="move", disp=[[1, 0, 0], [2, 0, 0]], start=-2)]))
+    B.append(("move-start-before", [N("Circle", position=PATH3), C(0), M(0, k="move", disp=[[1, 0, 0]], start=-5)]))
+    B.append(("move-start-beyond", [N("Circle", position=PATH3), C(0), M(0, k="move", disp=[1, 0, 0], start=5)]))
+    B.append(("rotate-anchors-shorter", [N("Sensor", position=PATH6), C(0), M(1, k="rotate", angle=[10, 20, 30], axis="z",
+                                                                           anchor=[[1, 0, 0], [2, 0, 0]], start=1)]))
+    B.append(("rotate_from_euler-upper", [N("Sensor", position=PATH3), C(0), M(0, k="rotfrom", how="euler", seq="ZYX", angle=[0.3, 0.2, 0.1],
+                                                                              degrees=False, anchor=0)]))
+    B.append(("rotate_from_rotvec", [N("Cylinder", position=PATH3), M(0, k="rotfrom", how="rotvec", angle=[0, 0, 90], degrees=True), C(0),
+                                     M(1, k="rotfrom", how="euler", seq="x", angle=90, degrees=True, anchor=[0, 1, 0], start=1)]))
+    # (f) three levels of nesting
+    tree = [N("Collection", position=[0, 0, 1]), N("Collection", position=PATH3), N("Collection"), N("Cuboid", sm=1, style=pend, position=PATH3),
+            N("Sensor", sm=2, style={"kw": {"label": "s"}, "dict": None, "traces": tr}), N("Circle"),
+            ADD(2, 3, 4), ADD(1, 2, 5), ADD(0, 1)]
+    B.append(("tree-copy-root", tree + [C(0), M(3, k="move", disp=[1, 0, 0])]))
+    B.append(("tree-copy-root-position", tree + [C(0, attrs=[["position", [5, 5, 5]]]), M(6, k="reset")]))
+    B.append(("tree-copy-root-orientation", tree + [C(0, attrs=[["orientation", [0, 0, 90]], ["position", PATH3]]), M(9, k="set", attr="polarization", val=[1, 0, 0])]))
+    B.append(("tree-copy-middle", tree + [C(1), M(7, k="move", disp=[0, 0, 1])]))
+    B.append(("tree-copy-middle-grandchild", tree + [C(1), M(10, k="trace", idx=0, what="show")]))
+    B.append(("tree-copy-inner", tree + [C(2, attrs=[["position", {"alias": "position", "from": 3}]]), M(8, k="move", disp=[1, 1, 1])]))
+    B.append(("tree-copy-middle-then-tree-edit", tree + [C(1), {"op": "parent", "x": 9, "p": None}]))
+    B.append(("tree-original-reset", tree + [C(0), M(0, k="reset")]))
+    B.append(("tree-copy-of-copy", tree + [C(1), C(7), M(19, k="label", label="zz")]))
+    # (g) histories
+    for name, mid in (("set", [M(0, k="set", attr="dimension", val=[2, 2, 2])]), ("move", [M(0, k="move", disp=PATH3)]),
+                      ("style", [M(0, k="style", upd={"color": "red"})]), ("repr", [M(0, k="read", what="repr")]),
+                      ("describe-getB", [M(0, k="read", what="describe"), M(0, k="read", what="getB")]),
+                      ("defaults", [{"op": "defaults", "how": "update"}, {"op": "defaults", "how": "reset"}]),
+                      ("defaults-update", [{"op": "defaults", "how": "update"}]), ("two-in-a-row", [C(0)]),
+                      ("rejected-position", [C(0, bad="position")]), ("rejected-style", [C(0, bad="style_nonsense")]),
+                      ("rejected-style-value", [C(0, bad="style_bad_value")]), ("unknown-keyword", [C(0, bad="nonsense")])):
+        B.append((f"history:{name}", [N("Cuboid", sm=1, style=pend, position=PATH3), C(0)] + mid + [C(0), M(0, k="move", disp=[1, 0, 0])]))
+    B.append(("history:reorient", [N("TriangularMesh"), C(0), M(0, k="reorient"), M(0, k="move", disp=[1, 0, 0]), C(0), M(1, k="reorient")]))
+    B.append(("history:tree-edit", [N("Collection"), N("Sensor"), N("Circle"), ADD(0, 1), C(0), ADD(0, 2), {"op": "remove", "c": 0, "objs": [1], "rec": True},
+                                    C(0), M(2, k="move", disp=[1, 0, 0])]))
+    for bad in sorted(BAD_KW):
+        B.append((f"rejected:{bad}", [N("Collection"), N("Collection"), N("Cuboid", sm=1, style=pend), N("Sensor"), ADD(1, 2, 3), ADD(0, 1), C(1, bad=bad)]))
+        B.append((f"rejected-leaf:{bad}", [N("Collection"), N("Cuboid", position=PATH3), ADD(0, 1), C(1, bad=bad)]))
+    # (h) keyword modes
+    B.append(("parent-keyword", [N("Collection"), N("Collection"), N("Sensor"), ADD(0, 2), C(2, parent=1), M(2, k="move", disp=[1, 0, 0])]))
+    B.append(("parent-keyword-same", [N("Collection"), N("Cuboid", position=PATH3), ADD(0, 1), C(1, parent=0, attrs=[["position", [1, 1, 1]]])]))
+    B.append(("parent-keyword-collection", [N("Collection"), N("Collection"), N("Sensor"), ADD(1, 2), C(1, parent=0), M(1, k="move", disp=[1, 0, 0])]))
+    B.append(("style-dict-over-pending-group", [N("Cuboid", sm=1, style=pend), C(0, dct={"magnetization": {"color": {"north": "green"}}, "path": {"line": {"width": 3}}})]))
+    B.append(("style-dict-over-initialised", [N("Cuboid", sm=2, style=pend), C(0, dct={"magnetization": {"color": {"north": "green"}}}, kw={"label": "b"})]))
+    B.append(("style-underscore-over-pending", [N("Sensor", sm=1, style={"kw": {"pixel_size": 2, "arrows_x_color": "red"}, "dict": None}),
+                                                C(0, kw={"arrows_y_color": "blue", "pixel_color": "green"})]))
+    B.append(("style-traces", [N("Cuboid", sm=2, style={"kw": {"label": "cube", "color": "blue"}, "dict": None, "traces": tr}), C(0),
+                               M(1, k="trace", idx=0, what="kwx")]))
+    B.append(("style-traces-original", [N("Sensor", sm=1, style={"kw": {}, "dict": None, "traces": tr}), M(0, k="touch"), C(0), M(0, k="trace", idx=0, what="scale")]))
+    # (i) aliasing
+    for cls in ("Cuboid", "Circle", "Dipole", "Sensor"):
+        B.append((f"alias-position:{cls}", [N(cls, position=PATH6), C(0, attrs=[["position", ali]]), M(1, k="move", disp=[0, 0, 1])]))
+        B.append((f"alias-position-slice:{cls}", [N(cls, position=PATH6), C(0, attrs=[["position", dict(ali, slice=3)]]), M(0, k="move", disp=[0, 0, -2])]))
+    B.append(("alias-position-with-parent", [N("Collection"), N("Cuboid", position=PATH6), ADD(0, 1), C(1, attrs=[["position", ali]]),
+                                            M(3, k="rotate", angle=90, axis="z", anchor=[0, 0, 0])]))
+    B.append(("alias-position-collection", [N("Collection", position=PATH6), N("Cuboid", position=PATH6), N("Dipole", position=PATH6), ADD(0, 1, 2),
+                                           C(0, attrs=[["position", ali]]), M(3, k="move", disp=[5, 0, 0])]))
+    B.append(("alias-child-position", [N("Collection", position=PATH3), N("Cuboid", position=PATH6), ADD(0, 1),
+                                      C(0, attrs=[["position", {"alias": "position", "from": 1}]]), M(1, k="move", disp=[0, 0, 1])]))
+    B.append(("alias-single-element-path", [N("Sensor", position=[[1, 2, 3]]), C(0, attrs=[["position", ali]]), M(1, k="move", disp=[1, 0, 0])]))
+    B.append(("alias-ndarray-input", [N("Cuboid", position={"np": PATH3}, dimension={"np": [1, 2, 3]}), C(0, attrs=[["position", {"np": PATH6}]]),
+                                     M(1, k="move", disp=[1, 0, 0])]))
+    B.append(("alias-ndarray-1x3", [N("Cuboid"), C(0, attrs=[["position", {"np": [[4, 5, 6]]}]]), M(1, k="move", disp=[1, 0, 0])]))
+    B.append(("alias-orientation", [N("Cuboid", position=PATH3, orientation=[[0, 0, 10], [0, 0, 20], [0, 0, 30]]),
+                                   C(0, attrs=[["orientation", {"alias": "orientation"}]]), M(0, k="rotate", angle=45, axis="x")]))
+    for who, t, src in (("original", 0, 1), ("copy", 1, 0)):
+        B.append((f"alias-back-into-{who}", [N("Cuboid", position=PATH6), C(0), M(t, k="set", attr="position", val={"alias": "position", "from": src}),
+                                             M(t, k="move", disp=[0, 0, 1])]))
+    for attr, cls in (("dimension", "Cuboid"), ("polarization", "Cylinder"), ("magnetization", "Sphere"), ("moment", "Dipole"),
+                      ("vertices", "Polyline"), ("pixel", "Sensor")):
+        B.append((f"alias-{attr}", [N(cls), C(0, attrs=[[attr, {"alias": attr}]]), M(0, k="write", slot="_" + attr, val=1)]))
+    return B
+
+
 def random_scenario(rng):
     """a random script whose last copy is followed by mutations of one side"""
     for _ in range(50):
@@ -1875,6 +2294,9 @@ def random_scenario(rng):
         return ops[:last + 1] + gen_post(rng, ops[:last + 1])
     except Exception:      # pylint: disable=broad-except
         return ops[:last + 1]
+    finally:
+        if any(op["op"] == "defaults" for op in ops):
+            magpy.defaults.reset()
 
 
 def gen_post(rng, ops):
@@ -1893,6 +2315,17 @@ def gen_post(rng, ops):
             root = a
         side = w.subtree(root)
     post = []
+    if rng.random() < 0.2:
+        # an attribute of the other side passed back into a setter (orig.position = cp.position, or the
+        # reverse), then an in-place path operation on the receiving object
+        t, src = (n + xi, xi) if side is new else (xi, n + xi)
+        for op in ({"op": "mut", "i": t, "m": {"k": "set", "attr": "position", "val": {"alias": "position", "from": src}}},
+                   {"op": "mut", "i": t, "m": {"k": "move", "disp": vec3(rng)}}):
+            try:
+                w.apply(op)
+                post.append(op)
+            except Exception:     # pylint: disable=broad-except
+                break
     for _ in range(rng.choice([1, 1, 2])):
         r = rng.random()
         colls = [i for i in side if w.kinds[i] == "coll"]
@@ -2281,13 +2714,18 @@ def run(ctx):
             if r is None or r[0] != trig:
                 small, r = lab, label_oracle(lab)
             ctx.impl_fail(f"label/Sensor:{r[0]}", r[1], {"kind": "label", "label": small, "trigger": r[0]})
-        for ops in FIXED_PROBES:
+        for name, ops in [("label-probe", o) for o in FIXED_PROBES] + fixed_battery():
             ctx.case(json.dumps(ops, sort_keys=True), True)
-            ctx.bump("search-fixed-probe")
+            ctx.bump("search-fixed:" + name.split(":")[0])
+            copies = [i for i, op in enumerate(ops) if op["op"] == "copy"]
             try:
+                for ci in copies[:-1]:              # every copy of a directed scenario is evaluated
+                    run_scenario(ops[:ci + 1], stats)
                 run_scenario(ops, stats)
             except Fail as f:
-                fails.append((ops, f))
+                fails.append((ops if f is None else ops, f))
+            except Exception as e:      # pylint: disable=broad-except
+                errors.append(f"fixed scenario {name}: {type(e).__name__}: {e}\n{traceback.format_exc()[-1500:]}")
         for _ in range(n):
             if len(fails) >= 20:          # plenty of counterexamples: shrink them instead of collecting more
                 break
